@@ -24,6 +24,12 @@ pub fn run(case: &Value) -> Value {
             Err(libcnb::layer::DeleteLayerError::IoError(e)) => json!({"ok": false, "err": errno_name(&e)}),
         },
         "rdr" => io_res(verif_hooks::remove_dir_recursively(&layers.join(name.as_str()))),
+        // shared::read_layer through the hook: what it does to the directory (finding F10) and how it ends
+        "read_layer" => match verif_hooks::read_layer(&layers, &name) {
+            Ok(_) => json!({"ok": true}),
+            Err(libcnb::layer::ReadLayerError::IoError(e)) => json!({"ok": false, "err": errno_name(&e)}),
+            Err(libcnb::layer::ReadLayerError::LayerContentMetadataParseError(_)) => json!({"ok": false, "err": "parse"}),
+        },
         // the public struct API: an uncached layer request deletes the existing layer and creates it afresh
         "recreate" => {
             let ctx = crate::c01::context(&layers);
